@@ -293,9 +293,19 @@ class Ctx:
         env = dict(os.environ)
         if env_extra:
             env.update(env_extra)
+        # An address-space limit turns a runaway allocation of the code under test (an unbounded loop
+        # that appends) into a Go "out of memory" fatal error with a stack, instead of a silent kill by
+        # the kernel.  (Not for race builds: the race runtime reserves terabytes of address space.)
+        pre = None
+        if not race:
+            gb = int(os.environ.get("VERIF_MEM_GB", "24"))
+
+            def pre():
+                import resource
+                resource.setrlimit(resource.RLIMIT_AS, (gb << 30, gb << 30))
         try:
             p = subprocess.run([exe] + list(args), stdout=subprocess.PIPE, stderr=subprocess.PIPE,
-                               timeout=timeout, text=True, env=env, cwd=self.scratch)
+                               timeout=timeout, text=True, env=env, cwd=self.scratch, preexec_fn=pre)
         except subprocess.TimeoutExpired:
             raise Infra("harness timeout: %s" % " ".join(args))
         return p
